@@ -54,6 +54,13 @@ def _g():
     yield 5
 
 
+def _hook(obj, val):
+    """Number.set_hook used by some configurations: scales plain numbers by 100 (the stored value is what counts)."""
+    if isinstance(val, (int, float)) and not isinstance(val, bool):
+        return val * 100
+    return val
+
+
 def _decv(e):
     if e[0] == "call":
         return _f
@@ -103,6 +110,8 @@ def _kwargs(ptype, cfg):
                 kw["allow_None"] = v
         elif k == "regex" and ptype == "Bytes":
             kw["regex"] = v.encode()
+        elif k == "set_hook":
+            kw["set_hook"] = _hook
         else:
             kw[k] = v
     return kw
@@ -234,6 +243,8 @@ def _case(draw):
             for b in (lo, hi):
                 if b is not None:
                     extra += [b, float(b), _nx(b, -math.inf), _nx(b, math.inf), int(math.floor(b)), int(math.ceil(b)), b + 1, b - 1]
+        if ptype in ("Number", "Integer") and draw(st.integers(0, 5)) == 0:
+            cfg["set_hook"] = "x100"         # the (deprecated) hook transforms the value before it is stored
         if ptype == "Range":
             extra = [(a, b) for a in extra[:6] for b in extra[:6]][:20] + [(1, 2), (2, 1)]
             st_ = draw(st.sampled_from([None, None, 1, -1, 0.5]))
@@ -395,6 +406,13 @@ def execute(case):
     kw = _kwargs(ptype, cfg)
     res.label("type:" + ptype)
     want = specs.verdict(ptype, cfg, v)
+    hooked = "set_hook" in cfg
+    if hooked:
+        # every route except the declaration default stores hook(value): that is the value that must be valid
+        want_set = specs.verdict(ptype, cfg, _hook(None, v))
+        res.label("set_hook")
+    else:
+        want_set = want
     d0 = _valid_default(ptype, cfg)
     if d0 is None and not (cfg.get("allow_None") and ptype != "Parameter"):
         if specs.verdict(ptype, cfg, None) is not True:
@@ -452,26 +470,26 @@ def execute(case):
 
     def ctor():
         holder["o"] = mk()(x=v)
-    attempt("constructor", ctor, want, (lambda: holder["o"].x) if want else None, None)
+    attempt("constructor", ctor, want_set, (lambda: holder["o"].x) if want_set and not hooked else None, None)
 
     o = mk()()
     prev = o.x
-    attempt("instance attribute", lambda: setattr(o, "x", v), want, lambda: o.x, prev)
+    attempt("instance attribute", lambda: setattr(o, "x", v), want_set, None if hooked else (lambda: o.x), prev)
 
     o2 = mk()()
     prev2 = o2.x
-    attempt("param.update", lambda: o2.param.update(x=v), want, lambda: o2.x, prev2)
+    attempt("param.update", lambda: o2.param.update(x=v), want_set, None if hooked else (lambda: o2.x), prev2)
 
     P3 = mk()
     prev3 = P3.x
-    attempt("class attribute", lambda: setattr(P3, "x", v), want, lambda: P3.x, prev3)
+    attempt("class attribute", lambda: setattr(P3, "x", v), want_set, None if hooked else (lambda: P3.x), prev3)
 
     if _json_native(v) and ptype not in ("Date", "CalendarDate", "DateRange", "CalendarDateRange", "Callable", "ClassSelector",
                                          "Selector", "ListSelector", "Parameter", "Bytes", "Color"):
         P4 = mk()
         # what the deserializer hands to the constructor: tuple types get their JSON list back as a tuple
         pv = tuple(v) if isinstance(v, list) and ptype in ("Tuple", "NumericTuple", "XYCoordinates", "Range") else v
-        wantd = specs.verdict(ptype, cfg, pv)
+        wantd = specs.verdict(ptype, cfg, _hook(None, pv) if hooked else pv)
         if isinstance(v, str) and ptype in ("Tuple", "NumericTuple", "XYCoordinates", "Range"):
             wantd = None      # a JSON string handed to a tuple type is split into characters: no claim
 
@@ -480,6 +498,41 @@ def execute(case):
             holder["d"] = P4(**kwargs)
         attempt("deserialization", deser, wantd, None, None)
         res.label("route:deserialization")
+
+    # ---- route: the identical object assigned again after it stopped being valid ---------------------------------
+    # "every value an assignment installs satisfied the constraints in force at that moment": re-assigning the very
+    # object the parameter holds is still an assignment
+    o5 = mk()()
+    cur = o5.x
+    made_invalid = None
+    try:
+        if ptype in ("Number", "Integer") and isinstance(cur, (int, float)) and not isinstance(cur, bool):
+            o5.param.x.bounds = (cur + 1, cur + 2)
+            made_invalid = "bounds tightened on the instance Parameter"
+        elif ptype == "String" and isinstance(cur, str):
+            o5.param.x.regex = "^never-matches-\\d{9}$"
+            made_invalid = "regex tightened on the instance Parameter"
+        elif ptype == "List" and isinstance(cur, list) and cfg.get("item_type") is not None:
+            cur.append(object())
+            made_invalid = "held list mutated in place"
+        elif ptype == "List" and isinstance(cur, list) and cfg.get("list_bounds") is not None and cfg["list_bounds"][1] is not None:
+            cur.extend([cur[0] if cur else 0] * (cfg["list_bounds"][1] + 1 - len(cur)))
+            made_invalid = "held list grown in place beyond its maximum length"
+    except (ValueError, TypeError):
+        made_invalid = None
+    if made_invalid:
+        res.label("route:reassign_identical_after_invalidation")
+        for how in ("attr", "update"):
+            try:
+                if how == "attr":
+                    o5.x = cur
+                else:
+                    o5.param.update(x=cur)
+            except (ValueError, TypeError):
+                continue
+            res.fail("C01.invalid_value_accepted", f"{desc}: {made_invalid}; assigning the identical, now invalid object {cur!r} "
+                                                  f"again via {how} was accepted")
+            break
 
     res.nontrivial = _nontrivial(ptype, cfg, v)
     if want is True:
